@@ -185,7 +185,9 @@ fn sdes_sweep1(i: u64) -> BuildCase {
 }
 
 /// sweep (ii): a single item of every length 0..=255 (plain) and PRIV with prefix lengths at the limit
-fn sdes_sweep2(i: u64) -> BuildCase {
+fn sdes_sweep2(j: u64) -> BuildCase {
+    // every length x {unpadded, 4 bytes of padding}
+    let (i, padded) = (j / 2, j % 2 == 1);
     let item = if i < 256 {
         ItemSpec { ty: 3, prefix: vec![], value: "e".repeat(i as usize) }
     } else if i < 256 + 255 {
@@ -195,7 +197,53 @@ fn sdes_sweep2(i: u64) -> BuildCase {
         let p = (i - 511) as usize;
         ItemSpec { ty: 8, prefix: vec![0; p], value: String::new() }
     };
-    plain(PacketSpec::Sdes(SdesSpec { chunks: vec![ChunkSpec { ssrc: 9, items: vec![item] }], padding: if i % 2 == 0 { 0 } else { 4 } }))
+    plain(PacketSpec::Sdes(SdesSpec { chunks: vec![ChunkSpec { ssrc: 9, items: vec![item] }], padding: if padded { 4 } else { 0 } }))
+}
+
+/// round trips far above the sizes the random generators draw (a 16-bit byte count anywhere in a write path or
+/// an accessor shows only beyond 64 KiB)
+fn large_sdes_cases() -> Vec<BuildCase> {
+    let item = |ty: u8, n: usize| ItemSpec { ty, prefix: if ty == 8 { vec![0x5a; 20] } else { vec![] }, value: "L".repeat(n) };
+    let specs = vec![
+        // one chunk beyond 64 KiB
+        SdesSpec { chunks: vec![ChunkSpec { ssrc: 0x00ab_cdef, items: (0..260).map(|k| item(1 + (k % 7) as u8, 250 + k % 6)).collect() }], padding: 0 },
+        // 31 chunks of 30 items: ~190 KiB, padded
+        SdesSpec { chunks: (0..31).map(|c| ChunkSpec { ssrc: c, items: (0..30).map(|k| item(if k % 9 == 0 { 8 } else { 2 }, 190 + (k + c as usize) % 11)).collect() }).collect(), padding: 8 },
+        // a thousand short items
+        SdesSpec { chunks: vec![ChunkSpec { ssrc: 1, items: (0..1000).map(|k| item(1 + (k % 8) as u8, k % 5)).collect() }, ChunkSpec { ssrc: 0, items: vec![] }], padding: 0 },
+    ];
+    specs.into_iter().enumerate().map(|(i, s)| BuildCase { spec: PacketSpec::Sdes(s), how: How { owned: i % 2 == 1, ..How::default() }, salt: i as u64 }).collect()
+}
+
+fn large_bye_app_cases() -> Vec<BuildCase> {
+    let mut v = Vec::new();
+    for (i, words) in [16_381usize, 16_384, 17_500, 65_533].into_iter().enumerate() {
+        // 65 533 words of payload = the largest APP there is (65 536 words in all)
+        for padding in [0u8, 8] {
+            if words == 65_533 && padding != 0 {
+                continue;
+            }
+            let data: Vec<u8> = (0..4 * words).map(|k| (k as u32).wrapping_mul(2654435761).to_be_bytes()[0]).collect();
+            v.push(BuildCase { spec: PacketSpec::App(AppSpec { ssrc: 0xfeed_0000 + i as u32, subtype: 31, name: "big!".into(), data, padding }), how: How { wrap: i % 2 == 1, ..How::default() }, salt: i as u64 });
+        }
+    }
+    v.push(plain(PacketSpec::Bye(ByeSpec { sources: (0..31).map(|k| 0xffff_ff00 + k).collect(), reason: Some("r".repeat(255)), padding: 252 })));
+    v
+}
+
+fn large_feedback_cases() -> Vec<BuildCase> {
+    let mut v = Vec::new();
+    let fb = |kind: FbKind, fci: FciSpec, padding: u8| PacketSpec::Fb(FbSpec { kind, sender: 0x0102_0304, media: 0x00ff_00ff, fci, padding });
+    // the full set of sequence numbers, a sparse 40 000, a set that needs a word per value
+    v.push(fb(FbKind::Transport, FciSpec::Nack((0..=65535u16).collect()), 0));
+    v.push(fb(FbKind::Transport, FciSpec::Nack((0..40_000u32).map(|k| (k.wrapping_mul(40_503) % 65_536) as u16).collect()), 8));
+    v.push(fb(FbKind::Transport, FciSpec::Nack((0..3_000u16).map(|k| k * 18).collect()), 0));
+    // more than 16 384 SLI entries, FIR beyond 8 192 entries, RPSI beyond 64 KiB
+    v.push(fb(FbKind::Payload, FciSpec::Sli((0..20_000u32).map(|k| ((k % 8192) as u16, (k * 7 % 8192) as u16, (k % 64) as u8)).collect()), 0));
+    v.push(fb(FbKind::Payload, FciSpec::Fir((0..10_000u32).map(|k| (k.wrapping_mul(0x9e37_79b1), k as u8)).collect()), 4));
+    v.push(fb(FbKind::Payload, FciSpec::Rpsi { pt: 127, data: (0..100_001u32).map(|k| (k % 251) as u8 | 1).collect(), overrun: 3 }, 0));
+    v.push(fb(FbKind::Payload, FciSpec::Rpsi { pt: 1, data: (0..65_534u32).map(|k| (k % 13) as u8).collect(), overrun: 8 }, 252));
+    v.into_iter().enumerate().map(|(i, spec)| BuildCase { spec, how: How { fb_owned: i % 2 == 0, ..How::default() }, salt: i as u64 }).collect()
 }
 
 pub fn c03(tier: Tier) -> Check {
@@ -209,7 +257,8 @@ pub fn c03(tier: Tier) -> Check {
         legs: vec![
             Box::new(RandomLeg { name: "random-sdes", cases: tier.pick(320_000, 4_000_000), make: Box::new(|| case_of(gen::sdes_spec(false).prop_map(PacketSpec::Sdes).boxed())), oracle: c03_oracle }),
             Box::new(SweepLeg { name: "two-items-x-following-ssrc-x-padding", n: 12 * 12 * 6 * 3 * 2, at: Box::new(sdes_sweep1), oracle: c03_oracle, exhaustive: true }),
-            Box::new(SweepLeg { name: "single-item-every-length", n: 256 + 255 + 255, at: Box::new(sdes_sweep2), oracle: c03_oracle, exhaustive: true }),
+            Box::new(ListLeg { name: "large-packets", cases: large_sdes_cases(), oracle: c03_oracle }),
+            Box::new(SweepLeg { name: "single-item-every-length", n: 2 * (256 + 255 + 255), at: Box::new(sdes_sweep2), oracle: c03_oracle, exhaustive: true }),
         ],
     }
 }
@@ -247,7 +296,8 @@ pub(crate) fn c04_oracle(c: &BuildCase, st: &mut Stats) -> Verdict {
             let bytes = build_valid(&c.spec, c.how, "C04")?;
             let got = no_panic("App::get_name_string", || rtcp_types::App::parse(&bytes).ok().map(|a| a.get_name_string()))?;
             match got {
-                Some(Ok(n)) => ensure!(n == s.name, "C04:APP:get_name_string", "name {:?} read back as {:?}", s.name, n),
+                // the name field is zero-filled to 4 bytes: the string may or may not carry the fill
+                Some(Ok(n)) => ensure!(n.trim_end_matches('\0') == s.name, "C04:APP:get_name_string", "name {:?} read back as {:?}", s.name, n),
                 other => fail!("C04:APP:get_name_string", "get_name_string = {other:?} for name {:?}", s.name),
             }
         }
@@ -276,6 +326,7 @@ pub fn c04(tier: Tier) -> Check {
                oracle: matching parser accepts; sources in order; reason None when empty/unset else exactly the bytes; subtype, zero-filled name, payload, padding; non-trivial = BYE with reason or source, APP with payload or padding",
         assumptions: vec!["get_name_string is compared only for NUL-free names"],
         legs: vec![
+            Box::new(ListLeg { name: "large-packets", cases: large_bye_app_cases(), oracle: c04_oracle }),
             Box::new(RandomLeg {
                 name: "random-bye-app",
                 cases: tier.pick(480_000, 6_000_000),
@@ -364,6 +415,7 @@ pub fn c05(tier: Tier) -> Check {
             "RPSI bit strings are compared as bits (8*len - ignored significant bits on both sides)",
         ],
         legs: vec![
+            Box::new(ListLeg { name: "large-packets", cases: large_feedback_cases(), oracle: c05_oracle }),
             Box::new(RandomLeg { name: "random-feedback", cases: tier.pick(480_000, 6_000_000), make: Box::new(|| case_of(gen::fb_spec(false).prop_map(PacketSpec::Fb).boxed())), oracle: c05_oracle }),
             Box::new(SweepLeg {
                 name: "rpsi-len-x-bits-x-padding",
